@@ -10,9 +10,9 @@ LEVEL = "exploration"
 RULE = ("every directed graph on n<=3 task names given as *ordered* dep lists (self-loops included; 16^3 = 4096 ordered graphs), plus "
         "every placement of one dangling edge and of one duplicated edge, x every choice of target (incl. an undefined one) x tasks "
         "spread over 1-2 COND files, through TaskIndex.load_transitive_closure; all n<=2 graphs with variants and all n=3 base graphs "
-        "end-to-end through `cond run T` and `cond run --check T` under the virtual kernel (spawn count observed); whole-project "
+        "every rooted DAG shape on 4 and 5 tasks in every listing order (all targets); end-to-end through `cond run T` and `cond run --check T` under the virtual kernel (spawn count observed); whole-project "
         "validation (load_all_tasks_in_cond_file + validate_all_loaded_tasks, explorer get_task_graph) for all graphs in every "
-        "definition order; graphs produced by the run_experiment_group macro (1-3 instances x chained or not x 9 group dep lists incl. "
+        "definition order (also through the real `git ls-files` with the project at the root of / nested inside the repository); graphs produced by the run_experiment_group macro (1-3 instances x chained or not x 9 group dep lists incl. "
         "dangling, self-referencing and duplicated ones x the dep list object reused by a later task), every target; oracle = reachability / cycle / dangling / duplicate reference. non-trivial = graph with >=1 edge; "
         "distinct = distinct (graph, target, layout)")
 ASSUMPTIONS = [
@@ -96,6 +96,7 @@ def render(deps, order, pkgs):
 
 
 NAMES = ["a", "b", "c", "d"]
+NAMES5 = ["a", "b", "c", "d", "e"]
 
 
 def graph_variants(n, tier):
@@ -154,6 +155,16 @@ def items(tier):
             out.append({"kind": "project", "n": n, "graphs": batch[i:i + 300]})
     batch = [(d, t) for d, t in graph_variants(2, tier) if t != "dup"] + [(d, t) for d, t in graph_variants(1, tier) if t != "dup"]
     out.append({"kind": "routes", "graphs": batch})
+    # the same entry point over the REAL git (git ls-files), project at the repository root and nested inside the repository
+    base2 = [(d, t) for d, t in graph_variants(2, tier) if t != "dup"]
+    for i in range(0, len(base2), 20):
+        out.append({"kind": "routes", "graphs": base2[i:i + 20], "realgit": True})
+    # every rooted DAG shape on 4 and 5 tasks in EVERY listing order (acyclic, complete: must be accepted for every target)
+    from .. import rungrid
+    for n in (4, 5):
+        gs = [[list(d) for d in g] for g in rungrid.graphs_upto((n,))]
+        for i in range(0, len(gs), 150):
+            out.append({"kind": "closure", "n": n, "graphs": [({NAMES5[k]: [NAMES5[j] for j in d] for k, d in enumerate(g)}, "dag") for g in gs[i:i + 150]]})
     # graphs whose tasks come out of the run_experiment_group macro (instances x-1..x-k, optionally chained, shared group deps)
     macro = []
     for k in (1, 2, 3):
@@ -379,33 +390,44 @@ def run_item(item, tier):
             dangling = any(d not in defined for v in deps.values() for d in v)
             indeg0 = sorted("//p:" + nm if i else "//:" + nm for i, nm in enumerate(names)
                             if not any(nm in deps[o] for o in names))
-            res["evals"] += 1
             pk = {nm: ("p" if i else "") for i, nm in enumerate(names)}
             files = render(deps, names, pk)
-            root = driver.fresh_project(files, name="c14r")
-            git = fakegit.FakeGit(commits={"c": []}, head="c", files=sorted(files))
-            art = {"kind": "routes", "deps": deps}
-            with driver.patched([(m["cgit"], "subprocess", vkmod.Facade(__import__("subprocess"), {"run": git.run}))]):
-                idx = TaskIndex(pathlib.Path(root))
-                try:
-                    load = idx.load_all_known_tasks(Git(pathlib.Path(root)))
-                    errs = [e for _, _, e in load if e is not None]
-                    roots = sorted(str(t) for t in idx.validate_all_loaded_tasks())
-                    tasks = sorted(str(t) for t in idx.get_all_loaded_tasks())
-                    got = "ok" if not errs else "loaderror"
-                except (CyclicDependency, TaskNotFound):
-                    got = "rejected"
-                except Exception as ex:  # noqa
-                    got = "internal:%s" % type(ex).__name__
-            res["sigs"].add(explore.sig(["routes", deps]))
-            if has_cycle or dangling:
-                if got != "rejected":
-                    viol("routes:invalid-accepted", "load_all_known_tasks+validate on %r -> %s" % (deps, got), art)
-            else:
-                if got != "ok":
-                    viol("routes:valid-rejected", "load_all_known_tasks+validate on %r -> %s" % (deps, got), art)
-                elif roots != indeg0 or tasks != sorted("//%s:%s" % (pk[nm], nm) for nm in names):
-                    viol("routes:wrong-graph", "on %r -> roots %s (expected %s) tasks %s" % (deps, roots, indeg0, tasks), art)
+            for nest in (("", "sub/proj") if item.get("realgit") else (None,)):
+              res["evals"] += 1
+              if nest is None:
+                root = driver.fresh_project(files, name="c14r")
+                git = fakegit.FakeGit(commits={"c": []}, head="c", files=sorted(files))
+              else:
+                import subprocess as _sp
+                top = driver.fresh_project({os.path.join(nest, k): v for k, v in dict(files, **{"cond_config.toml": ""}).items()}, name="c14g")
+                root = os.path.join(top, nest) if nest else top
+                git = fakegit.RealGit()
+                with driver.unguarded():
+                    for argv in (["git", "init", "-q"], ["git", "add", "-A"]):
+                        _sp.run(argv, cwd=top, check=True, capture_output=True,
+                                env=dict(os.environ, GIT_CONFIG_NOSYSTEM="1", HOME="/nonexistent", GIT_CEILING_DIRECTORIES=driver.scratch_root()))
+              art = {"kind": "routes", "deps": deps, "realgit": bool(item.get("realgit")), "nested": nest}
+              with driver.patched([(m["cgit"], "subprocess", vkmod.Facade(__import__("subprocess"), {"run": git.run}))]):
+                  idx = TaskIndex(pathlib.Path(root))
+                  try:
+                      load = idx.load_all_known_tasks(Git(pathlib.Path(root)))
+                      errs = [e for _, _, e in load if e is not None]
+                      roots = sorted(str(t) for t in idx.validate_all_loaded_tasks())
+                      tasks = sorted(str(t) for t in idx.get_all_loaded_tasks())
+                      got = "ok" if not errs else "loaderror"
+                  except (CyclicDependency, TaskNotFound):
+                      got = "rejected"
+                  except Exception as ex:  # noqa
+                      got = "internal:%s" % type(ex).__name__
+              res["sigs"].add(explore.sig(["routes", deps, nest]))
+              if has_cycle or dangling:
+                  if got != "rejected":
+                      viol("routes:invalid-accepted", "load_all_known_tasks+validate on %r -> %s" % (deps, got), art)
+              else:
+                  if got != "ok":
+                      viol("routes:valid-rejected", "load_all_known_tasks+validate on %r -> %s" % (deps, got), art)
+                  elif roots != indeg0 or tasks != sorted("//%s:%s" % (pk[nm], nm) for nm in names):
+                      viol("routes:wrong-graph", "on %r -> roots %s (expected %s) tasks %s" % (deps, roots, indeg0, tasks), art)
         res["sample"] = {"deps": item["graphs"][0][0], "check": "explorer path: load_all_known_tasks + validate_all_loaded_tasks"}
     for key, (what, art) in found.items():
         res["violations"].append({"key": key, "what": what, "artefact": art})
@@ -435,6 +457,6 @@ def replay(artefact):
     elif k == "project":
         item = {"kind": "project", "graphs": [(deps, "replay")]}
     else:
-        item = {"kind": "routes", "graphs": [(deps, "replay")]}
+        item = {"kind": "routes", "graphs": [(deps, "replay")], "realgit": bool(artefact.get("realgit"))}
     r = run_item(item, "quick")
     return [(v["key"], v["what"]) for v in r["violations"]]
